@@ -169,9 +169,12 @@ func genIds(r *common.Rand, n int, max int) string {
 	k := r.Intn(max + 1)
 	var ids []string
 	for i := 0; i < k; i++ {
-		if r.Chance(1, 8) {
-			ids = append(ids, fmt.Sprint(r.Intn(n)))
-		} else {
+		switch {
+		case r.Chance(1, 8):
+			ids = append(ids, fmt.Sprint(r.Intn(n))) // collides with a router's own routing prefix
+		case r.Chance(1, 2):
+			ids = append(ids, fmt.Sprint(101+r.Intn(2))) // popular prefixes: multi-homed
+		default:
 			ids = append(ids, fmt.Sprint(100+r.Intn(numApp)))
 		}
 	}
@@ -265,8 +268,9 @@ func genLog(g *common.Gen, r *common.Rand) {
 }
 
 func gen(g *common.Gen) {
+	root := common.NewRand(dvsim.ScrambleSeed(common.Seed()))
 	for i := 0; i < g.N; i++ {
-		r := g.R.Fork()
+		r := common.NewRand(dvsim.ScrambleSeed(root.U64()))
 		if i%3 == 2 {
 			genLog(g, r)
 		} else {
@@ -373,7 +377,14 @@ func dumpFib() string {
 	var rib []string
 	for _, e := range nd.R.VerifRib().Entries() {
 		nh1, c1, nh2, c2 := e.VerifSelection()
-		rib = append(rib, fmt.Sprintf("%s:%s:%d:%s:%d", idxs(uni.routerIdx(e.Name())), idxs(uni.routerIdxH(nh1)), c1, idxs(uni.routerIdxH(nh2)), c2))
+		i1, i2 := uni.routerIdxH(nh1), uni.routerIdxH(nh2)
+		if c1 >= dvsim.SpecInfinity {
+			i1 = -1 // which hop carries an infinite cost is not an observable
+		}
+		if c2 >= dvsim.SpecInfinity {
+			i2 = -1
+		}
+		rib = append(rib, fmt.Sprintf("%s:%s:%d:%s:%d", idxs(uni.routerIdx(e.Name())), idxs(i1), c1, idxs(i2), c2))
 	}
 	sort.Strings(rib)
 	var nbr []string
